@@ -132,6 +132,36 @@ theorem pinned_prange_raceFree :
         callees := [⟨"count_local_triangles_from_dag", true, true, 0, 0⟩] } = true := by
   decide
 
+/-! ### the orientation -/
+
+/-- "orientation of each edge once by a total order": for an order array without ties and without negative entries,
+    the DAG built by `get_dag` contains every edge `{i, j}` of a symmetric, loop-free graph in exactly one of the
+    two out-lists, and nothing else -/
+theorem dag_orients_each_edge_once (n : Nat) (adj : Nat → Nat → Bool) (hsym : ∀ a b, adj a b = adj b a)
+    (order : List Int) (hlen : order.length = n)
+    (hinj : ∀ a b, a < n → b < n → order.getD a 0 = order.getD b 0 → a = b)
+    (hpos : ∀ a, a < n → 0 ≤ order.getD a 0) (i j : Nat) (hi : i < n) (hj : j < n) (hij : i ≠ j) :
+    (j ∈ (getDag n adj order).row i ∨ i ∈ (getDag n adj order).row j ↔ adj i j = true) ∧
+      ¬ (j ∈ (getDag n adj order).row i ∧ i ∈ (getDag n adj order).row j) := by
+  rw [getDag_row n adj order hlen i hi, getDag_row n adj order hlen j hj]
+  simp only [List.mem_filter, List.mem_range, keepPred, Bool.and_eq_true, decide_eq_true_eq]
+  have h1 := hpos i hi
+  have h2 := hpos j hj
+  have h3 : order.getD i 0 ≠ order.getD j 0 := fun e => hij (hinj i j hi hj e)
+  rw [hsym j i]
+  constructor
+  · constructor
+    · rintro (⟨_, h, _⟩ | ⟨_, h, _⟩) <;> exact h
+    · intro h
+      by_cases hlt : order.getD i 0 < order.getD j 0
+      · exact Or.inl ⟨hj, h, h1, hlt⟩
+      · exact Or.inr ⟨hi, h, h2, by omega⟩
+  · rintro ⟨⟨_, _, _, h⟩, ⟨_, _, _, h'⟩⟩
+    omega
+
+example : ∀ a, a < 3 → ∀ b, b < 3 → ([2, 0, 1] : List Int).getD a 0 = ([2, 0, 1] : List Int).getD b 0 → a = b := by
+  decide
+
 /-! ### cliques -/
 
 /-- ★ `cliques_recursive_exact`: for a symmetric adjacency predicate and any rank `r` that is injective on the
@@ -184,6 +214,26 @@ theorem cliques_kernel_refines (n : Nat) (edge : Nat → Nat → Bool) (order : 
   cliquesFrom_getDag n edge order hlen k hk
 
 example : ([2, 0, 1] : List Int).length = 3 ∧ 2 ≤ 3 := by decide
+
+/-- `cliques_kernel_partial` of the plan, now a corollary: when `count_cliques_from_dag` returns, every label of
+    the box is back to its value (`k` at the top level) and the candidate list, degrees and counters of the calling
+    level are untouched — the permutation / label-restoration invariants of the kernel -/
+theorem cliques_box_restored (indptr : List Nat) (p : Nat → Nat → Bool) (kn n m L : Nat)
+    (K : KernelCtx indptr n L m) (c : Nat) (hc : c + 2 ≤ kn) (ix : List Nat) (b : Box)
+    (inv : LevelInv indptr p kn n m L (c+2) ix b) :
+    Frame (c+2) b (cliquesFrom indptr (c+2) ix b).2 ∧ (cliquesFrom indptr (c+2) ix b).2.Shape kn n m :=
+  ⟨(cliquesFrom_spec indptr p kn n m L K c hc ix b inv).2.2, (cliquesFrom_spec indptr p kn n m L K c hc ix b inv).2.1⟩
+
+/-- the hypotheses of `cliques_box_restored` hold at the top level of every run of `count_cliques`: the box of
+    `ListingBox.__cinit__` on the DAG of `get_dag` (any graph, any order array of the right length, any `k`) -/
+theorem cliques_top_level_invariant (n : Nat) (edge : Nat → Nat → Bool) (order : List Int)
+    (hlen : order.length = n) (k : Nat) :
+    KernelCtx (getDag n edge order).indptr n (getDag n edge order).indices.length
+        (maxDegOf (getDag n edge order).indptr) ∧
+      LevelInv (getDag n edge order).indptr (fun i j => edge i j && keepPred order i j) k n
+        (maxDegOf (getDag n edge order).indptr) (getDag n edge order).indices.length k
+        (getDag n edge order).indices (boxInit (getDag n edge order).indptr k) :=
+  ⟨(top_level_inv n edge order hlen k).1, (top_level_inv n edge order hlen k).2.1⟩
 
 /-- ★ `cliques_exact`: on every undirected graph (symmetric adjacency predicate, any size) and for every `k ≥ 2`,
     `count_cliques(adjacency, k)` returns the number of `k`-cliques, whatever permutation of the nodes
